@@ -41,6 +41,13 @@ func init() {
 			} else if r.Intn(3) == 0 {
 				how = "cancel-listed"
 				keys = []string{"\x18\x190", "\t", "\x03"}
+			} else if r.Intn(3) == 0 {
+				// the menu is being searched incrementally (C-f in the menu), a candidate inserted again, then Ctrl-C
+				how = "cancel-searching"
+				keys = []string{"\x18\x190", "\t", "\x06", "x", "\t", "\x03"}
+				if r.Intn(2) == 0 {
+					keys = []string{"\x18\x190", "\t", "\t", "\x06", "x", "\x03"}
+				}
 			}
 			sp := Spec{Prompt: "> ", Mode: "emacs", Runs: 1, Completer: cands, Inject: []Inject{{Seq: `\C-x\C-y0`, Line: string(line), Pos: pos}}}
 			sp.Chunks = hexChunks(keys)
@@ -76,7 +83,7 @@ func init() {
 			if strings.HasPrefix(how, "cancel") {
 				// the wait at which Ctrl-C was read: a menu must be active there
 				k := len(c.Specs[0].Chunks) - 1
-				if k >= len(tr.Waits) || tr.Waits[k].Local != "menu-select" {
+				if k >= len(tr.Waits) || !(tr.Waits[k].Local == "menu-select" || (how == "cancel-searching" && tr.Waits[k].Local == "isearch")) {
 					stat("skipped: no active menu at Ctrl-C")
 					return nil
 				}
